@@ -16,7 +16,7 @@ from pathlib import Path
 
 from harness.common import VERIF, Ctx, cbool, clist, copt, cstr, cz, parallel_workers, run_worker
 
-HDR_S = ("From Coq Require Import ZArith NArith List Bool String.\nFrom V Require Import Model.Serial Model.ConfigKey Model.SerialCheck.\n"
+HDR_S = ("From Coq Require Import ZArith NArith List Bool String.\nFrom V Require Import Model.Serial Model.SerialX Model.ConfigKey Model.SerialCheck.\n"
          "Import ListNotations.\nOpen Scope string_scope.\n")
 HDR_C = ("From Coq Require Import ZArith NArith List Bool.\nFrom V Require Import Model.ConfigKey Model.Serial Model.SerialCheck.\n"
          "Import ListNotations.\nOpen Scope N_scope.\n")
@@ -107,6 +107,31 @@ def uctx(c) -> str:
     comps = clist(f"({s_(a)}, {s_(b)})" for a, b in c["compsc"])
     return (f"{{| u_max := {cz(c['max'])}; u_conform := {conf}; u_schema := {sch}; u_governors := {sl(c['governors'])}; "
             f"u_types := {types}; u_refs := {refs}; u_compsc := {comps} |}}")
+
+
+def pk_rec(r) -> str:
+    return f"({s_(r['def'])}, " + clist(f"({s_(n)}, {fval(v)})" for n, v in r["fields"]) + ")"
+
+
+def pk_coord(p) -> str:
+    recs = "None" if p["recs"] is None else "(Some " + clist(f"({s_(k)}, {copt(r, pk_rec)})" for k, r in p["recs"]) + ")"
+    return f"({p['cls']}, {sl(p['names'])}, " + clist(dval(v) for v in p["vals"]) + f", {recs})"
+
+
+def pk_dt(p) -> str:
+    return f"({s_(p['name'])}, {sl(p['names'])}, {s_(p['sc'])}, {copt(p['psc'], s_)}, {cbool(p['calib'])})"
+
+
+def pk_ref(p) -> str:
+    return f"({pk_dt(p['dt'])}, {pk_coord(p['coord'])}, {s_(p['id'])}, {s_(p['run'])})"
+
+
+def _red_ok(p) -> bool:
+    """the observed __reduce__ has the shape the model can express (anything else is a model/implementation difference)"""
+    if not isinstance(p, dict) or "exc" in p:
+        return False
+    c = p.get("coord", p) if "dt" in p else p
+    return "cls" not in c or c["cls"] in ("ClsRequired", "ClsFull", "ClsExpanded")
 
 
 def obs_state(o) -> str:
@@ -329,17 +354,27 @@ def serial_coq_case(case):
         return f"({u}, {grp(case['inst'])}, {w})"
     if k == "rec":
         return f"({u}, {drec(case['inst'])}, {w})"
+    red = case.get("reduce")
     if k == "dt":
-        return f"({u}, {cbool(case['minimal'])}, {dst(case['inst'])}, {w})"
+        if not _red_ok(red):
+            return False
+        return f"({u}, {cbool(case['minimal'])}, {dst(case['inst'])}, {w}, {pk_dt(red)})"
     form = case["forms"].get("json", {})
+    pst = case.get("pickle_state") or {}
     if k == "coord":
         if "exc" in form or not form.get("is"):
             return None
-        return f"({u}, {cbool(case['minimal'])}, {coord(case['inst'])}, {w}, {obs_state(form)})"
+        if not _red_ok(red) or "exc" in pst or not pst.get("is"):
+            return False
+        return (f"({u}, {cbool(case['minimal'])}, {coord(case['inst'])}, {w}, {obs_state(form)}, "
+                f"{pk_coord(red)}, {obs_state(pst)})")
     if k == "ref":
         if "exc" in form or not form.get("is"):
             return None
-        return f"({u}, {cbool(case['minimal'])}, {dref(case['inst'])}, {w}, {obs_state(form['coord'])}, {s_(form['run'])})"
+        if not _red_ok(red) or "exc" in pst or not pst.get("is"):
+            return False
+        return (f"({u}, {cbool(case['minimal'])}, {dref(case['inst'])}, {w}, {obs_state(form['coord'])}, {s_(form['run'])}, "
+                f"{pk_ref(red)}, {obs_state(pst)})")
     raise ValueError(k)
 
 
@@ -473,14 +508,20 @@ def run_cases(ctx: Ctx, serial, cfg_obs):
     by_kind = {}
     for c in serial:
         lit = serial_coq_case(c)
-        if lit is not None:
+        if lit is False:
+            # __reduce__ / pickle gave something the model has no form for: model and implementation differ
+            ctx.disagreement(f"ser_{c['kind']}", {"kind": c["kind"], "inst": c.get("inst"), "reduce": c.get("reduce"),
+                                                  "pickle_state": c.get("pickle_state")},
+                             "__reduce__ / pickle of the instance is outside the model (shape or exception)")
+        elif lit is not None:
             by_kind.setdefault(c["kind"], []).append((lit, c))
     for k, lst in by_kind.items():
         bad = ctx.coq_cases(f"ser_{k}", HDR_S, [l for l, _ in lst], CHK[k], shard=60 if k in ("coord", "ref") else 150)
         for i in (bad or [])[:3]:
             c = lst[i][1]
-            ctx.disagreement(f"ser_{k}", {"kind": k, "minimal": c.get("minimal"), "inst": c.get("inst"), "wire": c.get("wire")},
-                             "codec model differs from the implementation (wire form or state read back)")
+            ctx.disagreement(f"ser_{k}", {"kind": k, "minimal": c.get("minimal"), "inst": c.get("inst"), "wire": c.get("wire"),
+                                          "reduce": c.get("reduce"), "pickle_state": c.get("pickle_state")},
+                             "codec model differs from the implementation (wire form, state read back, __reduce__ arguments or unpickled state)")
     lits = []
     for o, src in cfg_obs:
         lit = config_coq_case(o)
